@@ -44,7 +44,15 @@ def cases(draw, tier):
     values = "posdyadic" if what in ("norm", "cli") else \
         draw(st.sampled_from(["int", "dyadic", "posint", "small", "count",
                               "count"]))
-    spec = draw(gen.table_specs(tier, values=values, md=True, history=True))
+    shape = None
+    if what == "rankdata" and draw(st.sampled_from([False, False, True])):
+        # long vectors with many ties (sorting networks / unstable sorts only
+        # show on more than a handful of entries)
+        values = "small"
+        a_, b_ = draw(st.integers(9, 24)), draw(st.integers(1, 3))
+        shape = (a_, b_) if draw(st.booleans()) else (b_, a_)
+    spec = draw(gen.table_specs(tier, values=values, md=True, history=True,
+                                shape=shape))
     case = {"table": spec, "what": what, "axis": draw(ops.AX),
             "inplace": draw(st.booleans()),
             # the flag as a numpy boolean (true/false, but not True/False)
@@ -278,12 +286,20 @@ def check(case, rec):
             else t.rankdata(axis=axis, inplace=inplace, method=method)
         want_v = []
         skip_cmp = set()
+        # 'ordinal' ranks ties in their order of occurrence in the vector the
+        # function is handed.  That is position order unless the kernel works
+        # on the table's own arrays (layout already matches the axis) and
+        # those arrays have unsorted indices (left behind by a reordering)
+        own = {"observation": "csr", "sample": "csc"}[axis]
+        storage_order_unknown = lay.get("format") == own and \
+            lay.get("sorted") is False
         for k, v in enumerate(vecs):
             nzpos = [q for q, x in enumerate(v) if x != 0]
             nz = [v[q] for q in nzpos]
             out = [0.0] * len(v)
             if nz:
-                if method == "ordinal" and len(set(nz)) != len(nz):
+                if method == "ordinal" and len(set(nz)) != len(nz) and \
+                        storage_order_unknown:
                     skip_cmp.add(k)   # tie order is storage order
                 rk = scipy.stats.rankdata(nz, method=method)
                 for q, x in zip(nzpos, rk):
